@@ -160,4 +160,44 @@ theorem rect_shade_area (w h : Rat) : shoelace2 [(0, 0), (w, 0), (w, h), (0, h)]
   simp [shoelace2, shoelaceFrom, cross2]
   ring
 
+
+/-! ## shades given by their vertices -/
+
+/-- **a vertex-defined shade keeps its corner points**: whatever azimuth `a` and tilt `t` the conversion derives for the shade (unit
+    pairs), a vertex that lies in the plane those angles describe through the first vertex — its local z is 0, which is what dropping
+    that coordinate assumes — comes back, in global coordinates, as the source vertex turned by the building's deviation -/
+theorem vert_shade_corner (g a t : Ang) (ha : Ang.Unit a) (ht : Ang.Unit t) (v0 v : Vec3)
+    (hplane : (vertShadeLocal a t v0 v).z = 0) :
+    vertShadeCorner g a t v0 v = rotZ (Ang.neg g) v := by
+  unfold Ang.Unit at ha ht
+  unfold vertShadeLocal at hplane
+  simp only [rotX, rotZ, Ang.neg] at hplane
+  unfold vertShadeCorner vertShadeLocal toGlobal vadd Ang.add Ang.neg
+  apply vec3_ext
+  · simp only [rotZ, rotX]
+    linear_combination (-(a.s * g.c - a.c * g.s) * t.s) * hplane
+      + (-(a.s * g.c - a.c * g.s) * (-a.s * (v.x - v0.x) + a.c * (v.y - v0.y))) * ht
+      + (g.c * (v.x - v0.x) + g.s * (v.y - v0.y)) * ha
+  · simp only [rotZ, rotX]
+    linear_combination ((a.c * g.c + a.s * g.s) * t.s) * hplane
+      + ((a.c * g.c + a.s * g.s) * (-a.s * (v.x - v0.x) + a.c * (v.y - v0.y))) * ht
+      + (-g.s * (v.x - v0.x) + g.c * (v.y - v0.y)) * ha
+  · simp only [rotZ, rotX]
+    linear_combination (-t.c) * hplane + (v.z - v0.z) * ht
+
+
+/-- the first vertex is the origin of the converted shade, for any derived angles -/
+theorem vert_shade_first_vertex (g a t : Ang) (ha : Ang.Unit a) (ht : Ang.Unit t) (v0 : Vec3) :
+    vertShadeCorner g a t v0 v0 = rotZ (Ang.neg g) v0 :=
+  vert_shade_corner g a t ha ht v0 v0 (by simp [vertShadeLocal, rotX, rotZ, Ang.neg])
+
+/-- the plane hypothesis is met, e.g., by a horizontal canopy (tilt 0: all vertices at the height of the first one) whatever azimuth
+    the code assigns to it, and by a vertical screen facing (3/5, 4/5) -/
+example (g a : Ang) (ha : Ang.Unit a) (v0 : Vec3) (x y : Rat) :
+    vertShadeCorner g a Ang.zero v0 ⟨x, y, v0.z⟩ = rotZ (Ang.neg g) ⟨x, y, v0.z⟩ :=
+  vert_shade_corner g a Ang.zero ha (by simp [Ang.Unit, Ang.zero]) v0 ⟨x, y, v0.z⟩ (by simp [vertShadeLocal, rotX, rotZ, Ang.neg, Ang.zero])
+
+example : (vertShadeLocal ⟨3 / 5, 4 / 5⟩ Ang.half ⟨1, 2, 0⟩ ⟨1 + 3, 2 + 4, 7⟩).z = 0 ∧ Ang.Unit ⟨3 / 5, 4 / 5⟩ ∧ Ang.Unit Ang.half := by
+  refine ⟨by decide +kernel, by unfold Ang.Unit; norm_num, by unfold Ang.Unit Ang.half; norm_num⟩
+
 end Cte.Props.C03
